@@ -29,11 +29,14 @@ makeEdgesAt{Return,CallSite,Closure,If}         rule `edgesOK`
 namespace Argot.Intra
 
 /-- instruction kinds that matter (everything else is `other`). `call` = Call/Go/Defer that is not a
-handled builtin; `builtin n` = call the pass treats as the builtin named `n`. -/
+handled builtin; `builtin n` = call to the language builtin named `n` (or the invoke-mode `Error()` of the
+builtin error interface); `range`/`next` = map/string iteration; `select`: operands = the channels of
+its receive cases. -/
 inductive IK where
   | binop | unop | convert | changeType | changeInterface | makeInterface | sliceToArrayPtr
   | field | fieldAddr | index | indexAddr | lookup | phi | extract | typeAssert | slice
   | builtin (name : String)
+  | range | next | select
   | call | ret | ifc | makeClosure | other
   deriving DecidableEq, Repr, Inhabited
 
@@ -89,8 +92,8 @@ def dataOps (x : Instr) : List Nat :=
   (match x.kind with
    | .binop | .index | .indexAddr | .lookup => x.ops.take 2
    | .unop | .convert | .changeType | .changeInterface | .makeInterface | .sliceToArrayPtr
-   | .field | .fieldAddr | .extract | .typeAssert | .slice => x.ops.take 1
-   | .phi => x.ops
+   | .field | .fieldAddr | .extract | .typeAssert | .slice | .range | .next => x.ops.take 1
+   | .phi | .select => x.ops
    | .builtin n => (builtinNeeds n x.ops.length).filterMap (x.ops[·]?)
    | _ => []).filter (· != 0)
 
@@ -100,12 +103,15 @@ def defKind (f : Func) (t : Nat) : Option IK :=
 
 /-- Does origin `o` pass from operand `a` to the result of `x`?  Only `Extract` filters:
 from the tuple of the origin call itself only the origin's own index; from a comma-ok tuple
-(TypeAssert / UnOp receive / Lookup) component 0 (the data component). -/
+(TypeAssert / UnOp receive / Lookup) component 0 (the data component); from an iterator step
+(`Next`) the key and the value; from a `Select` the received values. -/
 def passes (f : Func) (o : Origin) (x : Instr) (a : Nat) : Bool :=
   if x.kind = .extract then
     match defKind f a with
     | some .call => a == o.val && o.idx == some x.aux
     | some .typeAssert | some .unop | some .lookup => x.aux == 0
+    | some .next => decide (1 ≤ x.aux)     -- (ok, key, value): key and value
+    | some .select => decide (2 ≤ x.aux)   -- (index, recvOk, received values…)
     | _ => false
   else true
 
